@@ -712,12 +712,17 @@ class Oracles:
             A = self.attempts
             open_cores = {}
             ended_cores = {}
+            no_end = {}
             for r in A.rows():
                 if r[A.col('instance_name')] is not None:
                     jr = jobs_by_key.get((r[A.col('batch_id')], r[A.col('job_id')]))
                     if jr is not None:
                         tgt = open_cores if r[A.col('end_time')] is None else ended_cores
                         tgt[r[A.col('instance_name')]] = tgt.get(r[A.col('instance_name')], 0) + jr[jco]
+                        if r[A.col('end_time')] is None and r[A.col('reason')] is not None:
+                            # closed with a reason but WITHOUT an end time (mark_job_errored passes end_time = NULL;
+                            # attempts_before_update then never lets an end time in): formally still "not ended"
+                            no_end[r[A.col('instance_name')]] = no_end.get(r[A.col('instance_name')], 0) + jr[jco]
             I = self.inst
             F = self.ifree
             free = {r[F.col('name')]: r[F.col('free_cores_mcpu')] for r in F.rows()}
@@ -733,6 +738,11 @@ class Oracles:
                         self.fail('C10', 'free_cores', 'C10/cores_of_ended_attempt_not_freed_on_pending_instance',
                                   f'instance {nm} (pending): free {f}, total {cores}, open attempts '
                                   f'{open_cores.get(nm, 0)}, ended attempts {ended_cores.get(nm, 0)} still deducted')
+                    elif f != e_ and no_end.get(nm):
+                        self.fail('C10', 'free_cores', 'C10/cores_of_attempt_with_reason_but_no_end_time',
+                                  f'instance {nm} ({st}): free {f}, total {cores}, un-ended attempts '
+                                  f'{open_cores.get(nm, 0)} of which {no_end[nm]} belong to attempts that carry an end '
+                                  f'reason but no end time (their cores were released, or released again, by a sweep)')
                     elif f != e_:
                         self.fail('C10', 'free_cores', f'C10/free_cores_mismatch/{st}',
                                   f'instance {nm} ({st}): free {f} != {cores} - open attempts {open_cores.get(nm, 0)}')
